@@ -43,9 +43,10 @@ func InitGenesis(ctx sdk.Context, k keeper.Keeper, data types.GenesisState) {
 			continue
 		}
 
-		// htlt assets must be both supported and active
-		if err := k.ValidateLiveAsset(ctx, htlc.Amount[0]); err != nil {
-			panic(err.Error())
+		// an open htlt stays valid when its asset was deactivated or removed from the
+		// parameters after it was created; its supply must still be tracked
+		if _, found := k.GetAssetSupply(ctx, htlc.Amount[0].Denom); !found {
+			panic(fmt.Sprintf("htlt %s: no asset supply for %s", htlc.Id, htlc.Amount[0].Denom))
 		}
 		k.SetHTLC(ctx, htlc, id)
 		k.AddHTLCToExpiredQueue(ctx, htlc.ExpirationHeight, id)
@@ -77,46 +78,9 @@ func InitGenesis(ctx sdk.Context, k keeper.Keeper, data types.GenesisState) {
 				supply.OutgoingSupply, outgoingSupply,
 			))
 		}
-		limit, err := k.GetSupplyLimit(ctx, supply.CurrentSupply.Denom)
-		if err != nil {
-			panic(err)
-		}
-		if supply.CurrentSupply.Amount.GT(limit.Limit) {
-			panic(
-				fmt.Sprintf(
-					"asset's current supply %s is over the supply limit %s",
-					supply.CurrentSupply,
-					limit.Limit,
-				),
-			)
-		}
-		if supply.IncomingSupply.Amount.GT(limit.Limit) {
-			panic(
-				fmt.Sprintf(
-					"asset's incoming supply %s is over the supply limit %s",
-					supply.IncomingSupply,
-					limit.Limit,
-				),
-			)
-		}
-		if supply.IncomingSupply.Amount.Add(supply.CurrentSupply.Amount).GT(limit.Limit) {
-			panic(
-				fmt.Sprintf(
-					"asset's incoming supply + current supply %s is over the supply limit %s",
-					supply.IncomingSupply.Add(supply.CurrentSupply),
-					limit.Limit,
-				),
-			)
-		}
-		if supply.OutgoingSupply.Amount.GT(limit.Limit) {
-			panic(
-				fmt.Sprintf(
-					"asset's outgoing supply %s is over the supply limit %s",
-					supply.OutgoingSupply,
-					limit.Limit,
-				),
-			)
-		}
+		// The supplies are not checked against the supply limit of the current parameters:
+		// a limit may have been lowered, or the asset removed, after the supply was built up,
+		// and the state exported from a running chain must be importable.
 	}
 }
 
